@@ -30,6 +30,7 @@ var (
 	fTrace     = flag.Bool("trace", false, "print the history of a replay")
 	fWorkers   = flag.Int("workers", 1, "total number of workers (enumeration is dealt round-robin)")
 	fRealIDs   = flag.Int("realids", 0, "C15 ID stage: number of IDs to draw from the real randomness source")
+	fDigests   = flag.Int("digests", 0, "determinism self-test: print the history digests of this many plans")
 	fMode      = flag.String("mode", "serial", "serial | race")
 	fBeginLog  = flag.String("beginlog", "", "race mode: file that receives the plan about to run")
 )
@@ -495,4 +496,33 @@ func TestRealIDs(t *testing.T) {
 		os.WriteFile(*fOut, b, 0o644)
 	}
 	fmt.Printf("REALIDS %s\n", b)
+}
+
+// TestDigests prints the history digest of the first -n plans drawn for a property from one rapid seed. The determinism
+// self-test runs it in several processes (different GOMAXPROCS) and compares the output byte for byte.
+func TestDigests(t *testing.T) {
+	if *fDigests <= 0 || *fProp == "" {
+		t.Skip("no -digests")
+	}
+	flag.Set("rapid.nofailfile", "true")
+	flag.Set("rapid.seed", fmt.Sprint(splitmix(*fSeed)|1))
+	flag.Set("rapid.checks", fmt.Sprint(*fDigests))
+	i := 0
+	ftb := &fakeTB{}
+	rapid.Check(ftb, func(rt *rapid.T) {
+		plan := drawPlan(rt, *fProp, *fFamily)
+		res := Run(t, plan)
+		if res.HarnessErr != "" {
+			fmt.Printf("DIGEST %d HARNESS-ERROR %s\n", i, abbreviate(res.HarnessErr, 300))
+			i++
+			return
+		}
+		keys := []string{}
+		for _, v := range res.Violations {
+			keys = append(keys, v.Key)
+		}
+		sort.Strings(keys)
+		fmt.Printf("DIGEST %d %s steps=%d tasks=%d viol=%v\n", i, res.Digest, len(plan.Steps), len(res.Tasks), keys)
+		i++
+	})
 }
